@@ -51,6 +51,23 @@ def history_obs(ctx):
     return obs
 
 
+def simple_all_obs(ctx):
+    """the (i)fft *_simple caches over every supported dimension 2^0..2^16 (table builders replaced by recording stand-ins)"""
+    from vf.core import Ob
+    obs = []
+    names = {0: ("reim_fft_simple", "new_reim_fft_precomp"), 1: ("reim_ifft_simple", "new_reim_ifft_precomp"),
+             2: ("cplx_fft_simple", "new_cplx_fft_precomp"), 3: ("cplx_ifft_simple", "new_cplx_ifft_precomp")}
+    for kind, (fn, builder) in names.items():
+        libs = ["reim/reim_fft_ref.c", "reim/reim_ifft_ref.c", "commons_private.c", "commons.c"] if kind < 2 else \
+               ["cplx/cplx_fft_ref.c", "cplx/cplx_ifft_ref.c", "commons_private.c", "commons.c"]
+        o = Ob("all-dimensions/%s/m=1..65536" % fn, "simple_all.c", "h_simple_all", {"KIND": kind}, libs, unwind=40, family=fn + " (every dimension)", timeout=600,
+               desc="two sweeps over all 17 dimensions through the caching entry point with the table builder replaced by a recording stand-in: every call is served by "
+                    "the table built for its own dimension and each table is built once")
+        o.stubs = [builder]
+        obs.append(o)
+    return obs
+
+
 def thread_history_obs(ctx):
     """C12: two-thread call-granularity histories over the thread-local caches (harness/simple.c h_simple_threads)"""
     obs = []
@@ -72,6 +89,7 @@ def thread_history_obs(ctx):
 
 def obligations(ctx):
     obs = history_obs(ctx)
+    obs += simple_all_obs(ctx)
     # results independent of the previous contents of outputs / scratch and of the buffer offset, integer entry points:
     # the C08 harness prefills every output with nondeterministic data and asserts the result as a function of the inputs only
     idx = 0
